@@ -425,3 +425,57 @@ func CFFSubrChain(img []byte, depth int, pick func(n int) int) (patches []Patch,
 	}
 	return nil, 0, false
 }
+
+// SynthCmap14Aliased builds a cmap whose first subtable is a copy of `base` (an existing
+// subtable of the font, so that the font stays usable) and whose second one is a format 14
+// subtable with n variation selector records that all point at ONE default UVS table of m
+// ranges: the bytes are shared, whatever is parsed from them is not.
+func SynthCmap14Aliased(base []byte, n, m int) []byte {
+	var w wbuf
+	w.u16(0, 2)
+	w.u16(3, 1)
+	w.u32(20)
+	w.u16(0, 5)
+	w.u32(uint32(20 + len(base)))
+	w.raw(base)
+	sub := w.len()
+	w.u16(14)
+	w.u32(uint32(10 + 11*n + 4 + 4*m))
+	w.u32(uint32(n))
+	uvs := 10 + 11*n
+	for i := 0; i < n; i++ {
+		vs := 0xFE00 + i%16
+		w.b = append(w.b, byte(vs>>16), byte(vs>>8), byte(vs))
+		w.u32(uint32(uvs))
+		w.u32(0)
+	}
+	_ = sub
+	w.u32(uint32(m))
+	for i := 0; i < m; i++ {
+		c := 0x4E00 + 2*i
+		w.b = append(w.b, byte(c>>16), byte(c>>8), byte(c), 0)
+	}
+	return w.b
+}
+
+// FirstCmapSubtable4 returns the bytes of the first format 4 subtable of a plain sfnt image.
+func FirstCmapSubtable4(img []byte) []byte {
+	_, tabs := ParseDirectory(img)
+	for _, t := range tabs {
+		if t.Tag != "cmap" || t.Offset+t.Length > len(img) || t.Length < 4 {
+			continue
+		}
+		tb := img[t.Offset : t.Offset+t.Length]
+		n := int(binary.BigEndian.Uint16(tb[2:]))
+		for i := 0; i < n && 4+8*i+8 <= len(tb); i++ {
+			off := int(binary.BigEndian.Uint32(tb[4+8*i+4:]))
+			if off+4 <= len(tb) && binary.BigEndian.Uint16(tb[off:]) == 4 {
+				l := int(binary.BigEndian.Uint16(tb[off+2:]))
+				if off+l <= len(tb) && l >= 16 {
+					return tb[off : off+l]
+				}
+			}
+		}
+	}
+	return nil
+}
